@@ -223,6 +223,45 @@ fn faults_for(rng: &mut Rng, g: &mut Gen, m: &Model) -> Vec<Fault> {
         r.target = None;
         push("missing-target", Op::Annotate(r), Some(good_new.clone()));
     }
+    // requests that are valid, but at the edge of what is valid, in the last member of a complex selector whose first member is a
+    // new text selection (and with new data): accepted on the pinned tree; if the library does refuse one, nothing may stay behind
+    if let Some(r) = m.resources.values().next() {
+        let len = r.text.len();
+        // without an identifier of its own: the corrected forms of other faults may have used the one of the request
+        let edge = |t: SelReq| {
+            let mut r = with_new_data.clone();
+            r.id = None;
+            r.target = Some(t);
+            Op::Annotate(r)
+        };
+        let (b, e) = crate::gen::gen_range(rng, len);
+        let first = SelReq::Text(Ref::Id(r.id.clone()), Off::simple(b, e));
+        let wrap = |rng: &mut Rng, v: Vec<SelReq>| match rng.below(3) {
+            0 => SelReq::Multi(v),
+            1 => SelReq::Composite(v),
+            _ => SelReq::Directional(v),
+        };
+        let cands: Vec<usize> = m.anns.keys().copied().filter(|a| m.parent_range(*a).is_some()).collect();
+        if !cands.is_empty() {
+            let a = *rng.pick(&cands);
+            let (_, pb, pe) = m.parent_range(a).unwrap();
+            let l = pe - pb;
+            let p = rng.below(l + 1);
+            let last = SelReq::Ann(g.r_ann(rng, m, a), Some(crate::gen::offset_in_mode(l, p, p, rng.below(4))));
+            let t = wrap(rng, vec![first.clone(), last]);
+            push("edge-valid:zero-width-relative-last-member", edge(t), None);
+            let last = SelReq::Ann(g.r_ann(rng, m, a), Some(crate::gen::offset_in_mode(l, 0, l, rng.below(4))));
+            let t = wrap(rng, vec![first.clone(), last]);
+            push("edge-valid:whole-relative-last-member", edge(t), None);
+        }
+        let p = if rng.chance(1, 2) { len } else { rng.below(len + 1) };
+        let last = SelReq::Text(Ref::Id(r.id.clone()), crate::gen::offset_in_mode(len, p, p, rng.below(4)));
+        let t = wrap(rng, vec![first.clone(), last]);
+        push("edge-valid:zero-width-last-member", edge(t), None);
+        let last = SelReq::Text(Ref::Id(r.id.clone()), crate::gen::offset_in_mode(len, 0, len, 1 + rng.below(3)));
+        let t = wrap(rng, vec![first.clone(), last]);
+        push("edge-valid:end-aligned-whole-last-member", edge(t), None);
+    }
     // valid target, invalid data
     {
         let mut r = req.clone();
@@ -308,7 +347,7 @@ fn single_faults(rep: &mut Report, rng: &mut Rng, h: &mut History, g: &mut Gen, 
                         if let Some((cls, detail)) = leftover(&before, &after) {
                             let leak = leak_class(&before, &after);
                             // the recorded root cause (annotate() does not undo its earlier steps) applies here as well
-                            let explained = matches!(f.bad, Op::Annotate(_)) && !f.name.starts_with("known-shadowed") && leak.split('+').all(|x| ["datasets", "keys", "data", "textselections"].contains(&x));
+                            let explained = matches!(f.bad, Op::Annotate(_)) && !f.name.starts_with("known-shadowed") && !f.name.starts_with("edge-valid") && leak.split('+').all(|x| ["datasets", "keys", "data", "textselections"].contains(&x));
                             rep.violation(
                                 format!("C14/{}/leaves/{}", f.name, if explained { "explained:earlier-steps-of-annotate-are-not-rolled-back".to_string() } else { leak.clone() }),
                                 json!({"request": f.bad.to_json(), "error": r.outcome.to_json(), "model": other.class(), "first_difference": cls, "detail": detail, "history": h.replay_json()}),
@@ -339,7 +378,7 @@ fn single_faults(rep: &mut Report, rng: &mut Rng, h: &mut History, g: &mut Gen, 
                 && match f.name {
                     "nested-complex-selector-first" => false,
                     // the target is known already and nothing precedes the failing step: the pinned tree leaves nothing
-                    n if n.starts_with("known-shadowed") => false,
+                    n if n.starts_with("known-shadowed") || n.starts_with("edge-valid") => false,
                     "complex-with-invalid-last-member" | "nested-complex-selector" => leak == "textselections" && textselection_count(&after) == textselection_count(&before) + 1,
                     _ => leak.split('+').all(|x| ["datasets", "keys", "data", "textselections"].contains(&x)),
                 };
